@@ -94,9 +94,9 @@ CLAIMED["C14"] = ("DESIGN.md §4 C14",
     "smallest unit: whole seconds for all unit pairs and styles, and millisecond-resolution durations (0..10^7 ms quick; "
     "thorough: all unit pairs over the windows 0..10^7 ms and +-2 s around one week, two weeks and ten years) incl. the "
     "millisecond unit and automatic units, on an IEEE-754 error-enclosure model of the floats. The week directives W (week of "
-    "the month) and ww (week of the year) are decided for all dates of years 1000..9999.",
+    "the month) and ww (week of the year) and the weekday / month names (EEEE, EEE, MMMM, MMM) are decided for all dates of years 1000..9999.",
     "trusted: pysym, exact-integer datetime/strftime model (C locale), lemma cut for int(d/k), binary64 round-to-nearest "
-    "enclosure (forward error analysis in linear real/integer arithmetic: sound over-approximation); outside: weekday/month names, G, "
+    "enclosure (forward error analysis in linear real/integer arithmetic: sound over-approximation); outside: the era directive G, locales other than C/English, "
     "durations that are not whole milliseconds, negative durations")
 
 CLAIMED["C01"] = ("DESIGN.md §4 C01",
